@@ -25,7 +25,8 @@ const (
 	// maxPortLen is the maximum length of a port's decimal representation.
 	maxPortLen = len("65535")
 	// maxHostPortLen is the maximum length of an origin's host-port part.
-	maxHostPortLen = maxHostLen + 1 + maxPortLen // 1 for colon character
+	// An absolute domain name may be followed by a full stop.
+	maxHostPortLen = maxHostLen + 1 + 1 + maxPortLen // 1 for trailing full stop, 1 for colon character
 )
 
 // Origin represents a (tuple) [Web origin].
